@@ -72,7 +72,9 @@ def corpus():
         inexact.append(_line_case(a, b, None, (b - a) / (3 + k), "spacing", False, "corpus-inexact-difference-bounds"))
     if len(pairs) >= 2:
         inexact.append(_grid_case((pairs[0][0], pairs[0][1], pairs[1][0], pairs[1][1]), (4, 6), None, "spacing", False, None, True, "corpus-inexact-difference-bounds"))
-    return dangerous + near + square + inexact + _corpus()
+    axis_aligned = [{"kind": "corpus-profile-axis-aligned", "fn": "profile", "args": [p1, p2, 5, None], "op": f"profile {C.enc(list(p1))} {C.enc(list(p2))} 5"}
+                    for p1, p2 in (((10.0, 2.0), (2.0, 2.0)), ((2.0, 2.0), (10.0, 2.0)), ((3.0, 8.0), (3.0, -4.0)), ((3.0, -4.0), (3.0, 8.0)), ((-1.5, 0.0), (-7.5, 0.0)))]
+    return dangerous + near + square + inexact + axis_aligned + _corpus()
 
 
 def _corpus():
@@ -169,6 +171,9 @@ def generate(rng, tier):
             p2 = (G.number(rng), G.number(rng))
             if rng.random() < 0.08:
                 p2 = p1                      # zero-length segment
+            elif rng.random() < 0.25:
+                # along a coordinate axis, in any of the four directions (a west-bound flight line, a south-bound one): distances grow from 0
+                p2 = (p2[0], p1[1]) if rng.random() < 0.5 else (p1[0], p2[1])
             size = rng.choice([1, 2, 3, 5, 8, 0, -1]) if rng.random() < 0.3 else rng.randint(1, 12)
             cs.append({"kind": "profile", "fn": "profile", "args": [p1, p2, size, _rand_extra(rng)],
                        "op": f"profile {C.enc(list(p1))} {C.enc(list(p2))} {size}"})
